@@ -384,7 +384,11 @@ func (fw *FileWriter) Sync() error {
 	return fw.file.Sync()
 }
 
-// Close flushes, syncs, and closes the file
+// Close flushes, syncs, and closes the file.
+// When the flush, the header update or the fsync fails the file stays open and the writer
+// usable: the caller keeps the writer, so closing the descriptor here left it with a dead one
+// ("file already closed" on every later Write/Sync/Close, also after the fault had cleared).
+// A later Close (or Sync) retries.
 func (fw *FileWriter) Close() error {
 	fw.mu.Lock()
 	defer fw.mu.Unlock()
@@ -395,7 +399,6 @@ func (fw *FileWriter) Close() error {
 
 	// Flush remaining buffer
 	if err := fw.flushLocked(); err != nil {
-		fw.file.Close()
 		return err
 	}
 
@@ -405,12 +408,11 @@ func (fw *FileWriter) Close() error {
 
 	// Seek to beginning and update header
 	if _, err := fw.file.Seek(0, io.SeekStart); err != nil {
-		fw.file.Close()
 		return err
 	}
 
 	if _, err := fw.file.Write(fw.header.Serialize()); err != nil {
-		fw.file.Close()
+		_, _ = fw.file.Seek(0, io.SeekEnd) // never leave the descriptor inside the header
 		return err
 	}
 
@@ -419,7 +421,7 @@ func (fw *FileWriter) Close() error {
 	// a power loss within the page-cache window would still lose data the
 	// caller already saw a successful Save response for.
 	if err := fw.file.Sync(); err != nil {
-		fw.file.Close()
+		_, _ = fw.file.Seek(0, io.SeekEnd)
 		return err
 	}
 
